@@ -57,6 +57,7 @@ def check_routing(ctx):
     cases = [
         # (what, rules to add, route code of the event, test id, expected sink, expected route code at the sink)
         ("an event whose first route segment has a consuming rule goes there, without that segment", [("prefix", "sink0", "0", True)], ("const", "0/1/2"), None, "sink0", ("const", "1/2")),
+        ("a consuming rule strips exactly the first segment, also when the next one looks the same", [("prefix", "sink0", "0", True)], ("const", "0/0/00/1"), None, "sink0", ("const", "0/00/1")),
         ("a consuming rule turns a bare prefix into no route code at all", [("prefix", "sink0", "0", True)], ("const", "0"), None, "sink0", NONE),
         ("a non-consuming rule leaves the route code alone", [("prefix", "sink0", "0", False)], ("const", "0/1"), None, "sink0", ("const", "0/1")),
         ("only the first segment selects: a longer prefix-looking code does not match", [("prefix", "sink0", "0", True)], ("const", "00/1"), None, "fallback", ("const", "00/1")),
